@@ -957,9 +957,9 @@ class FunctionBody:
         return [I + p for p in pre] + lines
 
     def as_block(self, n, ind):
-        s = self.stmt(n, ind + 1)
         if n.get('kind') == 'CompoundStmt':
             return self.stmt(n, ind)
+        s = self.stmt(n, ind + 1)
         I = '  ' * ind
         return [I + '{'] + s + [I + '}']
 
@@ -1344,9 +1344,20 @@ class FunctionBody:
         if op in ('&&', '||'):
             le = self.expr(l)
             self.no_hoist += 1
-            re_ = self.expr(r)
-            self.no_hoist -= 1
-            return '(%s %s %s)' % (le, op, re_)
+            try:
+                re_ = self.expr(r)
+                return '(%s %s %s)' % (le, op, re_)
+            except ExtractionBreak as e:
+                if 'hoisting is not modelled' not in str(e) or self.pre is None or self.no_hoist > 1:
+                    raise
+            finally:
+                self.no_hoist -= 1
+            # the right operand needs temporaries / may throw: lower the short circuit to an if statement
+            self.tr.tmp_counter += 1
+            name = 'wb_t%d' % self.tr.tmp_counter
+            pr, rv = self.with_pre(lambda: [self.expr(r)])
+            self.pre.append('_Bool %s = %s; if (%s%s) { %s %s = %s; }' % (name, le, '' if op == '&&' else '!', name, ' '.join(pr), name, rv[0]))
+            return name
         if op == ',':
             brk('comma operator', n)
         le = self.expr(l)
@@ -1520,7 +1531,7 @@ class FunctionBody:
         brk('construction of %s' % ct.c, n)
 
     def is_copy_ctor(self, ctor_t, ct):
-        m = re.match(r'^void \((.*)\)( noexcept)?$', ctor_t)
+        m = re.match(r'^void \((.*?)\)( noexcept(\(\w+\))?)?$', ctor_t)
         if not m:
             return False
         a = m.group(1).strip()
@@ -1777,6 +1788,9 @@ class FunctionBody:
         opname = rd['name']
         args = n['inner'][1:]
         decl = self.tu.by_id.get(rd['id'])
+        if decl is not None and opname == 'operator=' and (decl.get('isImplicit') or decl.get('explicitlyDefaulted')):
+            s_ = '%s = %s' % (self.expr(args[0]), self.expr(args[1]))      # memberwise copy assignment
+            return s_ if stmt else '(' + s_ + ')'
         if decl is not None and decl.get('kind') in FUNC_KINDS:
             cn = self.tr.request(self.tu, decl)
             self.calls.add(cn)
